@@ -744,9 +744,10 @@ func decBatchCase(buf, comp, raw []byte, want, src, codec string) {
 	if want != "" && ans != want {
 		if codec == "2" && len(comp) < 8 {
 			codec += ":snappy-short"
-		} else if nrecs := strings.Count(src, ";-")+strings.Count(src, ":N")+1; codec != "0" && ans == "err" && len(comp) < countRecords(src) {
-			_ = nrecs
+		} else if codec != "0" && ans == "err" && len(comp) < countRecords(src) {
 			codec += ":count-exceeds-compressed-size"
+		} else if ans == "err" && countRecords(src) > 131070 {
+			codec += ":count-exceeds-131070"
 		}
 		ioFail("recordbatch-roundtrip-differs:codec"+codec, src, "decoded: "+ans)
 	}
@@ -794,7 +795,7 @@ func msetCase(ms *sarama.MessageSet, pairs [][2][]byte) {
 		ps[i] = hx(p[0]) + ":" + hx(p[1])
 		qs[i] = hx(p[1]) + ":" + hx(p[0])
 	}
-	_ = qs
+	_ = qs // (the decoder table is rebuilt from the library's own answers in decMsetCase callers)
 	cz, dz := "-", "-"
 	if len(ps) > 0 {
 		cz, dz = strings.Join(ps, ","), strings.Join(qs, ",")
@@ -838,6 +839,13 @@ func decMsetCase(buf []byte, dz, want, src string) {
 	run.Emit(line, ans)
 	if want != "" && strings.TrimSpace(ans) != strings.TrimSpace(want) {
 		ioFail("messageset-roundtrip-differs", src, "decoded: "+ans)
+	}
+}
+
+// constants the translator cannot take (they mention encoding/binary): compared by value
+func constLines() {
+	for _, name := range []string{"maximumRecordOverhead", "recordBatchOverhead"} {
+		run.Emit("const "+name, strconv.Itoa(sarama.VerifConst(name)))
 	}
 }
 
@@ -957,6 +965,25 @@ func replayLine(l string) {
 		if len(f) == 2 {
 			run.Emit(l, sarama.VerifRecordsKind(unhex(f[1])))
 		}
+	case "const":
+		if len(f) == 2 {
+			run.Emit(l, strconv.Itoa(sarama.VerifConst(f[1])))
+		}
+	case "schema":
+		// the same call sequence on the real encoders
+		if len(f) >= 3 {
+			e := sarama.VerifRunEncScript(f[3:])
+			if e.Err == nil {
+				run.Emit(l, fmt.Sprintf("%d %s rt=ok", e.PrepLen, hx(e.Bytes)))
+			}
+		}
+	case "dschema":
+		if len(f) == 4 {
+			if b, ok := bodies[f[1]]; ok {
+				d := sarama.VerifDecodeBodyTraced(unhex(f[3]), b.New(), int16(atoi(f[2])))
+				run.Emit(l, decAnswer(d))
+			}
+		}
 	default:
 		run.Emit(l, "bad-op")
 	}
@@ -1038,7 +1065,11 @@ func main() {
 			batchCase(denseBatch(r.Fork(), codec, 3000, true))
 		}
 	}
+	// the other guard of getArrayLength on the record count: 2·MaxUint16
+	batchCase(denseBatch(r.Fork(), 0, 131070, false))
+	batchCase(denseBatch(r.Fork(), 0, 131071, false))
 	truncations(r)
+	constLines()
 	// every codec × level grid on one batch shape
 	for codec := 0; codec <= 4; codec++ {
 		levels := []int{sarama.CompressionLevelDefault}
